@@ -7,7 +7,7 @@ import json, os, re, shutil, subprocess, sys
 sid = sys.argv[1]
 prop = sid.split("-")[0]
 checks = sys.argv[2:] or [prop]
-wt = f"/tmp/seed/{prop}"
+wt = os.path.join(os.environ.get("SEED_BASE", "/tmp/seed"), prop)
 sd = f"{wt}/_seed/{sid}"
 if not os.path.exists(f"{sd}/patch.diff"):
     sys.exit(f"{sd}/patch.diff missing")
